@@ -15,17 +15,22 @@ func init() { runners["C06"] = runC06 }
 // C06: termination once the network is timely
 func runC06(o *out, r *rng, thorough bool, rp string) {
 	o.Rule = "multi-node executions of REAL participants: an arbitrary prefix (delay/reorder up to 40s, drops of re-broadcasts only, staggered starts, Byzantine identities < 1/3 sending validly signed equivocations / foreign CONVERGEs / recombined justifications / injected DECIDEs), then stabilisation (every message within the synchrony bound, adversary silent, every honest participant started); monitors: every started honest participant decides, within rounds-at-stabilisation + 6 if no Byzantine message was ever sent, + 40 otherwise; a run that ends with undecided participants, nothing in flight and no alarm pending is a stall; single-participant event traces (alarms at or after their time) are replayed against Layer N inside Coq so that the timer state machine of the model is the code's; non-trivial = run left round 0 before stabilisation or had Byzantine traffic"
-	runs := 60
+	runs := 100
 	if thorough {
 		runs = 1200
 	}
 	for i := 0; i < runs; i++ {
 		var local []violation
-		viol := func(clause, sig, detail string) { local = append(local, violation{Clause: clause, Signature: sig, Detail: detail}) }
+		viol := func(clause, sig, detail string) {
+			local = append(local, violation{Clause: clause, Signature: sig, Detail: detail})
+		}
 		var res *simResult
 		if i%10 == 9 {
 			res = lateQualityScenario(r, viol)
 			o.Dist["late-quality-scenario"]++
+		} else if i%10 == 7 {
+			res = lateStarterScenario(r, viol)
+			o.Dist["late-starter-scenario"]++
 		} else if i%10 == 4 {
 			res = splitRoundsScenario(r, viol)
 			o.Dist["split-rounds-scenario"]++
@@ -72,7 +77,7 @@ func runC06(o *out, r *rng, thorough bool, rp string) {
 		}
 	}
 	// timed single-participant traces against Layer N
-	nt := 60
+	nt := 120
 	if thorough {
 		nt = 600
 	}
@@ -128,7 +133,7 @@ func scriptLostWakeup(r *rng, variant int) (*instDriver, bool) {
 	d.deliver(2, 1, gpbft.PREPARE_PHASE, bc, d.justify(0, gpbft.COMMIT_PHASE, bottom))
 	d.now = d.t0.Add(ms(11))
 	d.deliver(2, 1, gpbft.CONVERGE_PHASE, bc, d.justify(0, gpbft.COMMIT_PHASE, bottom)) // skip to round 1
-	d.now = d.alarm                                                                      // CONVERGE timeout
+	d.now = d.alarm                                                                     // CONVERGE timeout
 	d.hasAl = false
 	_ = d.fireAlarm() // -> PREPARE round 1
 	d.now = d.t0.Add(ms(4500 + 37*variant))
